@@ -350,6 +350,32 @@ func runC16(c *harness.Ctx, idx int) {
 		return
 	}
 	check("EncodeObject(value)")
+	// other values of the same type going through the by-value scratch must neither
+	// touch this value nor leave anything behind that changes a later encoding
+	{
+		vc := gen.DefaultValCfg()
+		vc.Budget = 60
+		other := gen.NewValue(r, s, vc)
+		wantO := ref.Encode(s, other.Elem())
+		fSize(other.Elem().Interface())
+		bo := make([]byte, len(wantO)+16)
+		if eo := fEncode(bo, other.Elem().Interface()); !eo.panicked() && eo.err == nil && !sameUpToMapOrder(bo[:eo.n], wantO) {
+			c.Violation("repeatable", "C16/byvalue-other-value/"+sig, "by-value encoding of another value of the type differs from the reference: %s vs %s", hexClip(bo[:eo.n]), hexClip(wantO))
+		}
+		check("by-value calls on another value of the same type")
+		fSize(other.Elem().Interface()) // a by-value size computation is the last by-value use ...
+		zero := reflect.New(s.Go)
+		wantZ := ref.Encode(s, zero.Elem())
+		bz := make([]byte, len(wantZ)+len(wantO)+16)
+		if ez := fEncode(bz, zero.Elem().Interface()); !ez.panicked() && ez.err == nil && !sameUpToMapOrder(bz[:ez.n], wantZ) {
+			// ... before the zero value is passed by value
+			c.Violation("repeatable", "C16/byvalue-zero-after-history/"+sig, "by-value encoding of the zero value after by-value use of another value gives %s, expected %s", hexClip(bz[:ez.n]), hexClip(wantZ))
+		}
+		e3 := fEncode(b2, cc.V.Interface())
+		if e3.panicked() || e3.err != nil || !sameUpToMapOrder(first, b2[:e3.n]) {
+			c.Violation("repeatable", "C16/not-repeatable-after-byvalue/"+sig, "encoding the unmodified value again after by-value calls on other values differs: err=%v panic=%v", e3.err, e3.pv)
+		}
+	}
 	if !sameUpToMapOrder(first, b2[:e2.n]) {
 		c.Violation("repeatable", "C16/not-repeatable/"+sig, "second encoding differs beyond map order: %s vs %s", hexClip(first), hexClip(b2[:e2.n]))
 	}
